@@ -735,8 +735,14 @@ where
         sat_f64: Default::default(),
         sat_nat: Default::default(),
     };
+    // gcall=1: a collection (which clears the apply cache) before every operation, so that no
+    // memoised result can be served: the cache-free reference run of C06
+    let gcall = case.param("gcall") == Some("1");
     for line in &case.ops {
         let tok: Vec<&str> = line.split_whitespace().collect();
+        if gcall && tok[0] != "SNAP" {
+            it.core.mref.with_manager_exclusive(|m| m.gc());
+        }
         let res = match it.exec(&tok) {
             Ok(r) => r,
             Err(e) => format!("err {e}"),
@@ -803,8 +809,12 @@ mod mt {
         let snap_each = case.param("snap") == Some("each");
         let mref = oxidd::mtbdd::new_manager::<T>(cap, tcap, cache, threads);
         let mut core: Core<Fun<T>> = Core { mref, slots: BTreeMap::new() };
+        let gcall = case.param("gcall") == Some("1");
         for line in &case.ops {
             let tok: Vec<&str> = line.split_whitespace().collect();
+            if gcall && tok[0] != "SNAP" {
+                core.mref.with_manager_exclusive(|m| m.gc());
+            }
             let res: Result<String, String> = (|| {
                 if let Some(r) = core.exec(&tok) {
                     return r;
